@@ -299,6 +299,18 @@ func c05Events(sh c05Shape) []hEvent {
 		tn = "inc:build"
 	}
 	evs = append(evs, run("run", tn), run("force", "--force", tn))
+	if sh.genOnce {
+		// (one step deeper than the other shapes, over the events that matter for "was the second
+		// run recorded": the full alphabet at depth 4 does not fit the quick budget)
+		keep := map[string]bool{"edit-a": true, "add-b": true, "rm-b": true, "rm-out": true, "run": true, "force": true}
+		var few []hEvent
+		for _, e := range evs {
+			if keep[e.Name] {
+				few = append(few, e)
+			}
+		}
+		return few
+	}
 	return evs
 }
 
